@@ -142,7 +142,9 @@ impl MemReader {
     pub fn read(&mut self, src: usize, dst: &mut [u8]) -> Result<usize, CopyFromProcessError> {
         if let Some(rs) = &mut self.style {
             let res = match rs {
-                Style::VirtualMem => Self::vmem(self.pid, src, dst).map_err(|s| (s, 0)),
+                Style::VirtualMem => Self::vmem(self.pid, src, dst)
+                    .map(|len| Self::complete_short_read(self.pid, src, dst, len))
+                    .map_err(|s| (s, 0)),
                 Style::File(file) => Self::file(file, src, dst).map_err(|s| (s, 0)),
                 Style::Ptrace => Self::ptrace(self.pid, src, dst),
                 Style::Unavailable { ptrace, .. } => Err((*ptrace, 0)),
@@ -161,7 +163,7 @@ impl MemReader {
         let vmem = match Self::vmem(self.pid, src, dst) {
             Ok(len) => {
                 self.style = Some(Style::VirtualMem);
-                return Ok(len);
+                return Ok(Self::complete_short_read(self.pid, src, dst, len));
             }
             Err(err) => err,
         };
@@ -195,6 +197,29 @@ impl MemReader {
             length: dst.len(),
             source: ptrace,
         })
+    }
+
+    /// `process_vm_readv` stops at the first page the target itself cannot read (`PROT_NONE`,
+    /// write-only), although that memory is there. `/proc/<pid>/mem` and ptrace ignore page
+    /// protections: try to get the rest of a short read through them. Returns the number of
+    /// bytes of `dst` that are filled.
+    fn complete_short_read(pid: nix::unistd::Pid, src: usize, dst: &mut [u8], len: usize) -> usize {
+        if len >= dst.len() {
+            return len;
+        }
+        let Some(rest_src) = src.checked_add(len) else {
+            return len;
+        };
+        let rest = &mut dst[len..];
+        if let Ok(mut file) = std::fs::File::open(format!("/proc/{pid}/mem")) {
+            if Self::file(&mut file, rest_src, rest).is_ok() {
+                return len + rest.len();
+            }
+        }
+        if Self::ptrace(pid, rest_src, rest).is_ok() {
+            return len + rest.len();
+        }
+        len
     }
 
     #[inline]
